@@ -43,6 +43,8 @@ type histogramOperator struct {
 
 	// seriesBuckets are the buckets for each individual series.
 	seriesBuckets []buckets
+
+	duplicates *model.DuplicateLabelCheck
 }
 
 func NewHistogramOperator(pool *model.VectorPool, args parser.Expressions, nextOps []model.VectorOperator, stepsBatch int) (model.VectorOperator, error) {
@@ -150,6 +152,9 @@ func (o *histogramOperator) processInputSeries(vectors []model.StepVector) ([]mo
 			step.SampleIDs = append(step.SampleIDs, uint64(i))
 			step.Samples = append(step.Samples, val)
 		}
+		if err := o.duplicates.Check(step); err != nil {
+			return nil, err
+		}
 		out = append(out, step)
 		o.vectorOp.GetPool().PutStepVector(vector)
 	}
@@ -179,13 +184,15 @@ func (o *histogramOperator) loadSeries(ctx context.Context) error {
 		if err != nil {
 			continue
 		}
-		lbls, _ = DropMetricName(lbls)
 
+		// As in the Prometheus engine, buckets are gathered per metric name;
+		// the name is dropped from the output only.
 		hasher.Reset()
 		hashBuf = lbls.Bytes(hashBuf)
 		if _, err := hasher.Write(hashBuf); err != nil {
 			return err
 		}
+		lbls, _ = DropMetricName(lbls)
 
 		seriesHash := hasher.Sum64()
 		seriesID, ok := seriesHashes[seriesHash]
@@ -201,6 +208,8 @@ func (o *histogramOperator) loadSeries(ctx context.Context) error {
 		}
 	}
 	o.seriesBuckets = make([]buckets, len(o.series))
+	// Histograms that differ in the metric name only have equal output labels.
+	o.duplicates = model.NewDuplicateLabelCheck(o.series)
 	o.pool.SetStepSize(len(o.series))
 	return nil
 }
